@@ -12,6 +12,7 @@ package main
 
 import (
 	"io"
+	"runtime"
 	"sync/atomic"
 
 	"context"
@@ -836,10 +837,10 @@ func scenarios(thorough bool) []scenario {
 		out = append(out, heavy(fetchCancelScenario("fetch-cancel", m)))
 	}
 	if thorough {
-		for _, m := range modeSets("s1.org", "s2.org", "s3.org") {
+		for _, m := range []map[string]int{{"s1.org": 0, "s2.org": 0, "s3.org": 0}, {"s1.org": 0, "s2.org": 1, "s3.org": 2}, {"s1.org": 1, "s2.org": 1, "s3.org": 1}, {"s1.org": 2, "s2.org": 0, "s3.org": 1}} {
 			out = append(out, heavy(fetchScenario("fetch-three-calls", m, [][]string{{"s1.org", "s2.org"}, {"s2.org", "s3.org"}, {"s3.org", "s1.org", "me.org"}})))
 		}
-		for _, m := range modeSets("s1.org", "s2.org") {
+		for _, m := range []map[string]int{{"s1.org": 0, "s2.org": 0}, {"s1.org": 1, "s2.org": 2}, {"s1.org": 2, "s2.org": 1}} {
 			out = append(out, heavy(ringScenario("ring-three-batches", m, [][]string{{"s1.org"}, {"s2.org", "s1.org"}, {"s1.org", "s2.org"}})))
 		}
 		out = append(out,
@@ -909,8 +910,11 @@ func run(r *harness.Run) {
 	if r.Replaying() {
 		return
 	}
-	budget := time.Duration(r.Pick(200, 2400)) * time.Second
-	r.Budget(budget + 120*time.Second)
+	// per-scenario time budget; scenarios run 16 at a time, so the whole exploration takes about waves x budget at most
+	waves := (len(scs) + runtime.GOMAXPROCS(0) - 1) / runtime.GOMAXPROCS(0)
+	budget := time.Duration(r.Pick(400, 2700)/waves) * time.Second
+	r.Budget(time.Duration(waves)*budget + 20*time.Minute)
+	r.Extra("per_scenario_budget_seconds", int(budget.Seconds()))
 	type childOut struct {
 		Execs, Steps, MaxSteps int64
 		Observations           []string
